@@ -210,6 +210,20 @@ def minimise(pool, pid: str, trace: dict, sig: str, budget_evals=1500) -> dict:
                 break
             n = min(n * 2, len(evs))
     trace = dict(trace, events=evs)
+    # property-specific shrinking of the stored-state recipe (generated packages, fault lists): greedy, first improvement
+    mod = load_prop(pid)
+    if hasattr(mod, "shrink_candidates"):
+        rounds = 0
+        while rounds < 60 and evals < budget_evals:
+            cands = mod.shrink_candidates(trace)
+            if not cands:
+                break
+            evals += len(cands)
+            hit = _fails_same(pool, pid, cands, sig)
+            if hit is None:
+                break
+            trace = cands[hit]
+            rounds += 1
     # simplifications
     simp = []
     start = trace.get("start", [{"deck": "default"}])
